@@ -1142,7 +1142,12 @@ func (agg *aggregate) Process(ctx context.Context, man gdbi.Manager, in gdbi.InP
 				}
 
 				for _, p := range percents {
-					q := td.Quantile(p / 100)
+					// the digest answers NaN for a percent outside 0..100 but
+					// indexes out of range for a NaN one
+					q := math.NaN()
+					if !math.IsNaN(p) {
+						q = td.Quantile(p / 100)
+					}
 					//sp, _ := structpb.NewValue(p)
 					out <- &gdbi.BaseTraveler{Aggregation: &gdbi.Aggregate{Name: a.Name, Key: p, Value: q}}
 				}
